@@ -56,13 +56,25 @@ func VerifHarness_C11_restart() {
 	// the body comes from an untrusted peer, from the trusted peer, or from an untrusted peer after
 	// the trusted peer announced the txid (its inventory handler records the request as trusted):
 	// in the last two cases the trusted peer vouches for it
-	source := verifrt.Choose("t.source", 3)
+	// ... or the trusted peer vouches after the untrusted body was processed: by announcing the
+	// txid (its inventory handler, through the node's message dispatch) or by sending the body too
+	source := verifrt.Choose("t.source", 5)
 	trusted := source != 0
 	if source == 2 {
 		k.node.memPool.AddRequest(ctx, tid, true)
 		verifrt.Reach("C11.before.announced-by-trusted-body-from-untrusted")
 	}
 	perr := k.node.processUnconfirmedTx(ctx, handlers.TxData{Msg: t, Trusted: source == 1, ConfirmedHeight: -1})
+	if source == 3 {
+		inv := wire.NewMsgInv()
+		inv.AddInvVect(wire.NewInvVect(wire.InvTypeTx, &tid))
+		verifrt.Assert(k.node.handleMessage(ctx, inv) == nil, "C11.before.trusted-inv-handled")
+		verifrt.Reach("C11.before.vouched-after-the-body")
+	}
+	if source == 4 {
+		verr := k.node.processUnconfirmedTx(ctx, handlers.TxData{Msg: t, Trusted: true, ConfirmedHeight: -1})
+		verifrt.Assert(verr == nil, "C11.before.processed")
+	}
 	verifrt.Assert(perr == nil, "C11.before.processed")
 	verifrt.Assert(len(k.rec.of("tx", tid)) == 1, "C11.before.delivered")
 	sent := k.rec.of("tx", tid)[0].tx
